@@ -4,7 +4,7 @@
    Every binary64 number is an exact rational; the model computes in exact arithmetic, the implementation
    rounds; results are compared with a relative tolerance of 2^-30 (mask decisions are compared exactly:
    a wrong mask changes an output by O(1)). *)
-From Coq Require Import List Bool ZArith QArith Qcanon Qabs.
+From Coq Require Import List Bool ZArith QArith Qcanon Qabs Qround.
 From MV Require Import Model.WrapModel.
 Import ListNotations.
 
@@ -16,13 +16,14 @@ Definition qc_leb (x y : Qc) : bool := Qle_bool (this x) (this y).
 Definition qc_abs (x : Qc) : Qc := Q2Qc (Qabs (this x)).
 (* exact square root of a rational square (integer square roots of numerator and denominator);
    only reached by cir_axis_Hz, whose inputs the harness chooses as Pythagorean triples *)
+Definition qc_ceil (x : Qc) : Qc := Q2Qc (inject_Z (Qceiling (this x))).
 Definition qc_sqrt (x : Qc) : Qc :=
   Q2Qc (Z.sqrt (Qnum (this x)) # Pos.sqrt (Qden (this x))).
 
 #[global] Instance QcOps : NumOps := {|
   F := Qc; f0 := 0%Qc; f1 := 1%Qc;
   fadd := Qcplus; fsub := Qcminus; fmul := Qcmult; fdiv := Qcdiv; fopp := Qcopp; finv := Qcinv;
-  fabs := qc_abs; fsqrt := qc_sqrt; fofZ := z;
+  fabs := qc_abs; fsqrt := qc_sqrt; fceil := qc_ceil; fofZ := z;
   feqb := Qc_eq_bool; fltb := qc_ltb; fleb := qc_leb
 |}.
 
